@@ -449,7 +449,11 @@ fn gen_random(g: &mut Gen, r: &mut StdRng, th: bool) {
             m = [1, 2, 3, 1000][r.gen_range(0..4)];
         }
         let h = (m / 2).max(1);
-        let shape = if it < 40 { it % 6 } else { r.gen_range(0..6) };
+        let shape = if it < 40 {
+            it % 6
+        } else {
+            [0, 0, 0, 0, 0, 0, 0, 3, 3, 3, 3, 3, 2, 2, 2, 4, 4, 1, 1, 5][r.gen_range(0..20)]
+        };
         let (x, y, z) = match shape {
             0 => (rvec(r, len, m), rvec(r, len, m), rvec(r, len, m)),
             1 => {
@@ -674,6 +678,50 @@ fn replay_spec(g: &mut Gen, input: &str) {
     }
 }
 
+fn ivec(v: &Value) -> Vec<i64> {
+    v.as_array().unwrap().iter().map(|x| x.as_i64().unwrap()).collect()
+}
+
+/// re-execute the calls of recorded events (replay artefacts) against the current tree
+fn rerun(g: &mut Gen, input: &str) {
+    for l in read_ndjson(input) {
+        g.run += 1;
+        let prec = l["prec"].as_u64().unwrap_or(52) as u32;
+        let ev = match l["ev"].as_str().unwrap_or("") {
+            "Dist" => dist_event(g.run, l["kind"].as_str().unwrap(), l["p"].as_u64().unwrap() as u16, prec,
+                                 l["e"].as_i64().unwrap() as i32, &ivec(&l["x"]), &ivec(&l["y"]), &ivec(&l["z"])),
+            "Mismatch" => Some(mismatch_event(g.run, l["kind"].as_str().unwrap(), l["p"].as_u64().unwrap() as u16, prec,
+                                              &ivec(&l["x"]), &ivec(&l["y"]))),
+            "Maha" => {
+                let mat: Vec<Vec<i64>> = l["mat"].as_array().unwrap().iter().map(ivec).collect();
+                Some(maha_event(g.run, l["mode"].as_str().unwrap(), &mat, prec, l["e"].as_i64().unwrap() as i32,
+                                &ivec(&l["x"]), &ivec(&l["y"]), &ivec(&l["z"])))
+            }
+            "MahaMismatch" => {
+                let mat: Vec<Vec<i64>> = l["mat"].as_array().unwrap().iter().map(ivec).collect();
+                Some(maha_mismatch_event(g.run, &mat, prec, &ivec(&l["x"]), &ivec(&l["y"])))
+            }
+            "Expect" => {
+                let kind = l["kind"].as_str().unwrap();
+                let s = l["S"].as_u64().unwrap() as u32;
+                let (x, y) = (ivec(&l["x"]), ivec(&l["y"]));
+                let (status, out) = match dist(prec, kind, l["p"].as_u64().unwrap() as u16, &x, &y, 0) {
+                    Ok(v) => ("ok", proj(v, 1.0, s, 0, 1, 1.0)),
+                    Err(_) => ("panic", no_result()),
+                };
+                Some(json!({"run": g.run, "ev": "Expect", "kind": kind, "p": l["p"], "prec": prec, "S": s,
+                            "x": x, "y": y, "lo": l["lo"], "hi": l["hi"], "expectPanic": l["expectPanic"],
+                            "status": status, "out": out}))
+            }
+            _ => None,
+        };
+        match ev {
+            Some(e) => g.out.emit(e),
+            None => g.skipped += 1,
+        }
+    }
+}
+
 fn main() {
     let args: Vec<String> = std::env::args().skip(1).collect();
     let args = &args[..];
@@ -689,6 +737,7 @@ fn main() {
         "gen-mismatch" => gen_mismatch(&mut g, &mut r, th),
         "gen-maha" => gen_maha(&mut g, &mut r, th),
         "replay-spec" => replay_spec(&mut g, arg(args, 2)),
+        "rerun" => rerun(&mut g, arg(args, 2)),
         _ => {
             eprintln!("unknown c17 mode {}", mode);
             std::process::exit(2);
